@@ -28,7 +28,7 @@ func init() {
 		Assumptions:    []string{"lock held at both accesses implies no data race", "sync.Pool hands an object to one borrower at a time", trustDeps},
 	}
 	Properties["C08"] = PropSpec{
-		Rules:       []Rule{Stateless, Slots, PoolAPI, ResLinear, OptionsRoundTrip, MapOrder("(*SchemaValidator).Validate", "(*ParamValidator).Validate", "(*HeaderValidator).Validate")},
+		Rules:       []Rule{Setter, Stateless, Slots, PoolAPI, ResLinear, OptionsRoundTrip, MapOrder("(*SchemaValidator).Validate", "(*ParamValidator).Validate", "(*HeaderValidator).Validate")},
 		Explanation: "STATELESS effect analysis over every function: each store into a field (or element of an array/slice/map held in a field) of the 13 validator types outside their constructors, and each call of a receiver-mutating method (summaries computed, interface dispatch resolved by method name over the implementations), is (i) guarded by the recycle option (directly or because the enclosing function is recycle-only, greatest fixpoint over call sites), (ii) applied to an object constructed in the same activation, or (iii) applied to an ephemeral type whose every instance is created, run once and dropped. SLOT-INIT: children are built only in the parent's constructor from distinct constructor calls; SLOT-ONESHOT: per-element validators are fresh. OPTIONS-ROUNDTRIP: every option returned by SchemaValidatorOptions.Options() restores exactly the field it was read from and every field is replayed, so a validator configured from another one's options is not silently switched to the one-shot recycling mode. EMPTY-ESCAPE as for C04.",
 		NotDecided:  "Determinism of dependencies; lazy spec.ExpandSchema on sub-schemas that still contain $ref; equality of message sets across repetitions (behavioural). Confirmed by probing: a validator reused on items: {$ref: '#'} or on a pointer through a lazily expanded location changes its verdict between calls.",
 		Assumptions: []string{"validator state = fields of the validator types; caller-supplied registries are outside", trustDeps},
@@ -122,7 +122,7 @@ func init() {
 
 func init() {
 	Properties["C03"] = PropSpec{
-		Rules:       []Rule{DeadTail, RuleSeq, NoDrop, RunState, SpecPred, GuardScope, ArgRole, DefaultsFieldwise, RawAnalyzer, ExpandRoot},
+		Rules:       []Rule{Setter, DeadTail, RuleSeq, NoDrop, RunState, SpecPred, GuardScope, ArgRole, DefaultsFieldwise, RawAnalyzer, ExpandRoot},
 		Explanation: "GUARD-SCOPE: every option (StrictPathParamUniqueness, the two swagger strictness switches, skip-schemata) and every path-name exemption predicate of the object validator controls only the effects in its reviewed scope — a rule message or pre-check that becomes control dependent on another option or exemption is reported; SPEC-PRED: for 18 documented rules whose predicate is a conjunction of simple comparisons (path-parameter required/unique/in-path, body-xor-formData, one body parameter, required-property-defined, items present for arrays, duplicate operation ids / parameter names, default response …) the rule's message is control dependent on exactly those comparisons with the right operands and polarity — operands are named structurally (parameter position, declaring type of a field, the conditions under which a flag is set), never by local name — and the path-parameter helpers find placeholders with the placeholder expression in every '/'-segment. RULE-SEQ: every documented rule function is called by (*SpecValidator).Validate and its result is the operand of errs.Merge; every return other than the last is guarded by !Options.ContinueOnErrors && errs.HasErrors(), and the last is dominated by all rule calls. NO-DROP: every *Result produced in spec.go/default_validator.go/example_validator.go/helpers.go is merged, returned, or returned to the pool only where HasErrorsOrWarnings() is false. DEFAULTS-FIELDWISE: the process-wide default options are only changed field by field outside init. RAW-ANALYZER: the analyzer of the document as written is used only to enumerate references, as fallback when no expanded document exists, or at reviewed sites. EXPAND-ROOT: resolution requests are given the validator's document.",
 		NotDecided:  "The predicate inside each rule (value-level). Value-level defects of individual rule functions found by probing and not decided here (DESIGN section 6, findings/hunt/C03): circular-ancestry bookkeeping (diamonds, self-cycles), required vs additionalProperties/allOf, duplicate path-item parameters, ToGoName collisions, literal X overlapping a placeholder.",
 		Assumptions: []string{trustDeps},
@@ -131,7 +131,7 @@ func init() {
 
 func init() {
 	Properties["C10"] = PropSpec{
-		Rules:       []Rule{MapOrder("(*SpecValidator).Validate"), RuleSeq, ModeUse, WarnNeutral, RunState, ResultAlgebra, PoolCtor, DefaultsFieldwise, InputRO},
+		Rules:       []Rule{Setter, MapOrder("(*SpecValidator).Validate"), RuleSeq, ModeUse, WarnNeutral, RunState, ResultAlgebra, PoolCtor, DefaultsFieldwise, InputRO},
 		Explanation: "MAP-ORDER: in every function reachable from (*SpecValidator).Validate, a range over a map is left before exhaustion only by pure search loops, and a list filled in map order is sorted before it is rendered into a message (taint propagated through appends, callees' return values and ranges over tainted lists); RULE-SEQ: early returns only under !Options.ContinueOnErrors && errs.HasErrors(), the final return after all rules (so the stop-early run executes a prefix of the same rule sequence: its errors are a subset), warnings bookkeeping deferred before the first rule, options copied per validator and the process-wide default never consulted during validation; WARN-NEUTRAL: no error is added under a test of the warnings of a sub-result that can carry warnings (warnings alone never invalidate); MODE-USE: every read of ContinueOnErrors is consumed by a branch condition of Validate and flows nowhere else (not into a rule, not into the options of a dependency such as the reference expander), so the mode decides when the run stops and never what a rule reports; RUN-STATE: per-run fields of a reused validator are re-initialised; RESULT-ALGEBRA: messages form a text-keyed set (order-insensitive accumulation); POOL-CTOR: spec validation always recycles validators, so a constructor that leaves a field of a borrowed object unassigned on some path makes the outcome depend on what the pool handed out (previous validations, map order, GC). DEFAULTS-FIELDWISE: a package-level setter cannot reset the other defaults (the verdict would depend on the history of setter calls). carried-state: inside a range over a map no message depends on a container the same loop fills as it goes (path overlaps did: fixed by visiting paths in sorted order).",
 		NotDecided:  "Determinism of the dependencies (analysis, loader); serialisation variants of one document; which member of a cycle a circular-ancestry message names. Found by probing, not decided: the unresolved reference quoted as 'first found' (dependency walk order); the parsed document rewritten by safeExpandedParamsFor when references do not resolve under continue-on-errors.",
 		Assumptions: []string{trustDeps},
